@@ -239,7 +239,10 @@ def _library_compositions(spec, rep, InvBroken):
         comp = gen.gen_composition(rng, mix)
         t = rng.uniform(290, 370)
         mode = rng.choice(["V", "T", "P"])
-        tp, pp = gen.gen_permeate(rng, mode, mix, t, comp)
+        try:
+            tp, pp = gen.gen_permeate(rng, mode, mix, t, comp)
+        except Exception:
+            tp, pp = None, None
         case = {"index": "lib%d" % index, "mixture": mdesc, "T": t, "x": gen.describe_composition(comp), "Tp": tp, "pp": pp}
         try:
             with guards.budget(5000):
@@ -253,7 +256,7 @@ def _library_compositions(spec, rep, InvBroken):
             rep.violation("class-invariant 0<=p<=1", case, {"error": str(e)})
         except guards.BudgetExceeded:
             rep.count("skipped_slow")
-        except ValueError:
+        except Exception:  # ValueError for an inadmissible state, OverflowError for a vapour pressure beyond float range (cryogenic trap)
             rep.count("library_runs_raised")
 
 
